@@ -191,6 +191,10 @@ func genXLSX(c *fw.Ctx, idx int, o genOpts) ([]byte, *pkgModel) {
 	sids := distinctNumbers(r, total, total+5)
 
 	wb := &ooxml.XWorkbook{Styles: r.Intn(2) == 0, DocProps: r.Intn(2) == 0, Title: "c18"}
+	if c.Rand("pkg", idx, "strict").Intn(4) == 0 {
+		wb.Strict = true
+		f.add("ooxml=iso-29500-strict")
+	}
 	if r.Intn(2) == 0 {
 		f.add("missing-optional=styles/docProps")
 	}
